@@ -28,9 +28,12 @@ FlatOf(R) == [mem |-> [x \in 1..(K + 1) |-> IF x = 1 THEN JobsF ELSE {}],
 
 InitDigraphs == \E R \in [JobsF -> SUBSET JobsF] : G = FlatOf(R)
 (* every DAG is isomorphic to one whose edges go from lower to higher ids  *)
-InitDags == \E R \in [JobsF -> SUBSET JobsF] :
-               /\ \A x \in JobsF : \A y \in R[x] : y < x
-               /\ G = FlatOf(R)
+RECURSIVE DagReqs(_)
+(* all requirement functions on 2..j+1 whose edges go from higher to lower ids *)
+DagReqs(j) == IF j = 0 THEN {[x \in {} |-> {}]}
+              ELSE {[y \in (DOMAIN f) \cup {j + 1} |-> IF y = j + 1 THEN s ELSE f[y]] :
+                       f \in DagReqs(j - 1), s \in SUBSET (2..j)}
+InitDags == \E R \in DagReqs(K) : G = FlatOf(R)
 Stay == UNCHANGED G
 SpecDigraphs == InitDigraphs /\ [][Stay]_G
 SpecDags     == InitDags /\ [][Stay]_G
